@@ -35,6 +35,8 @@ def gen_prog(rng, depth, nsolvers=3, p_raise=0.12):
             out.append({"try": gen_prog(rng, depth - 1, nsolvers, p_raise)})
         elif r < 0.45 + p_raise:
             out.append({"raise": 1})
+        elif r < 0.45 + p_raise + 0.08:
+            out.append({"fail": rng.randrange(2)})       # a call that is rejected and whose exception the caller catches on the spot
         else:
             out.append({"h": rng.randrange(len(HELPERS))})
     return out
@@ -217,6 +219,7 @@ def run_impl(prog):
     L = W.L
     events = []
     problems = []
+    fails = []
 
     def stack_ids():
         ids = []
@@ -238,6 +241,23 @@ def run_impl(prog):
                 events.append((st["h"], obs))
             elif "raise" in st:
                 raise Boom()
+            elif "fail" in st:
+                # an operation the package legitimately rejects, caught by the caller right away: nothing may be left behind
+                import numpy as _np
+                try:
+                    if st["fail"] == 0:
+                        L.solve(verif_a=_np.array([1.0, 2.0]), verif_b=_np.array([1.0, 2.0, 3.0]))      # sweeps of different lengths
+                    elif st["fail"] == 1:
+                        ghost = L.Structure(model=L.Model(pin_dic={L.Pin("g0"): 0, L.Pin("g1"): 1}))
+                        L.connect((ghost, L.Pin("g0")), (ghost, L.Pin("g1")))                               # structure is in no solver
+                    else:
+                        raise RuntimeError("not rejected")
+                except Boom:
+                    raise
+                except Exception as e:  # noqa
+                    if isinstance(e, RuntimeError) and str(e) == "not rejected":
+                        pass
+                    fails.append(type(e).__name__)
             elif "with" in st:
                 with W.solvers[st["with"]]:
                     run_block(st["body"])
@@ -262,6 +282,21 @@ def run_impl(prog):
     return final, events, out, same
 
 
+def to_model(prog):
+    """a rejected call caught on the spot is, for the stack model, an exception raised and caught in place"""
+    out = []
+    for st in prog:
+        if "fail" in st:
+            out.append({"try": [{"raise": 1}]})
+        elif "with" in st:
+            out.append({"with": st["with"], "body": to_model(st["body"])})
+        elif "try" in st:
+            out.append({"try": to_model(st["try"])})
+        else:
+            out.append(st)
+    return out
+
+
 def check_prog(ctx, prog):
     final, events, out, same = run_impl(prog)
     replay = {"prog": prog}
@@ -271,7 +306,7 @@ def check_prog(ctx, prog):
     if not same:
         ctx.violation("C17:stack-unbalanced", f"sol_list after the program differs from before (top-first ids now {final})", replay)
         return False
-    ans = ctx.driver.ask({"op": "stack", "stack": [0], "prog": prog})
+    ans = ctx.driver.ask({"op": "stack", "stack": [0], "prog": to_model(prog)})
     if "events" not in ans:
         ctx.disagreement("C17.model.exec", f"model: {ans}", replay)
         return True
